@@ -4,6 +4,8 @@ import Chess.Model.SearchF
 import Chess.Model.Uci
 import Chess.Model.Go
 import Chess.Model.Share
+import Chess.Model.Perft
+import Chess.Spec.Perft
 import Chess.Spec.Rules
 import Chess.Spec.Fen
 import Chess.Spec.Mates
@@ -72,10 +74,11 @@ def specMoves (ms : List Spec.UciMove) : String :=
 
 def specClass (s : List Char) : String :=
   match Spec.fenStrict s with
-  | some a => if Spec.sane a then "strict-sane" else
+  | some a => if !Spec.noEdgePawns a then "malformed" else   -- a pawn on the first or last rank: no position of chess
+      if Spec.sane a then "strict-sane" else
       (if Spec.materialOk a .white && Spec.materialOk a .black && Spec.noEdgePawns a then "strict-material" else "strict")
   | none => match Spec.fenLoose s with
-    | some _ => if Spec.epRankOk s then "loose" else "malformed"   -- en-passant square on the wrong rank for the side
+    | some a => if Spec.epRankOk s && Spec.noEdgePawns a then "loose" else "malformed"   -- wrong en-passant rank / edge pawn
     | none => "malformed"
 
 def fmtInfos (infos : List (Search.Info Move)) : List String :=
@@ -198,6 +201,21 @@ def runOp (ctx : Ctx) (line : String) : Ctx × List String :=
       let f := fun (x : Option Nat) => match x with | some v => toString v | none => "-"
       (ctx, [(match r with | some t => s!"time {t}" | none => "notimer") ++
         s!" limit {Uci.goLimit words} args {f a.wtime} {f a.btime} {f a.winc} {f a.binc} {f a.depth} {f a.movetime} {if a.infinite then 1 else 0}"])
+    | _ => (ctx, ["badargs"])
+  | "perft" => withGame fun g =>
+    -- perft <depth>: the model of `rustybait perft <depth> <fen>`: one line per root move (sorted by text), then the sum
+    match args.map String.toNat? with
+    | [some d] =>
+      let rows := g.perftDivide d
+      (ctx, rows.map (fun r => s!"{S r.1}: {r.2}") ++ [s!"sum {(rows.map (·.2)).sum} perft {g.perft d}"])
+    | _ => (ctx, ["badargs"])
+  | "spec_perft" =>
+    -- spec_perft <depth> <fen>: the number of legal lines of that length by the rules
+    match args with
+    | ds :: _ =>
+      match ds.toNat?, Spec.fenLoose (restL.drop (ds.length + 1)) with
+      | some d, some a => (ctx, [toString (Spec.perftFast d a)])
+      | _, _ => (ctx, ["unparsable"])
     | _ => (ctx, ["badargs"])
   | "share" =>
     -- share <w>: ((w as f64 * 0.02) as u64) in the exact binary64 model
